@@ -138,7 +138,7 @@ def error_provenance(ctx):
     else:
         t = show(Norm(rt).term(rt["body"]))
         expect_term(ctx, "C10.1", "error-guard/TypeNotFound", rt["sp"], t,
-                    "Ok(Option::ok_or(PortableRegistry::resolve(P0.type_registry,P1),TypegenError::TypeNotFound(P1))?)",
+                    "ok_or(PortableRegistry::resolve(P0.type_registry,P1),TypegenError::TypeNotFound(P1))",
                     "a missing id becomes TypeNotFound(<that id>), never a panic")
     # every registry lookup in the resolver funnel goes through resolve_type (no direct resolve().unwrap())
     a = G.resolver_fn(ctx, "C10.1")
